@@ -90,7 +90,7 @@ func main() {
 		"struct", "arrowser", "ptr:nil:struct", "ptr:nil:int", "ptr:nil:string", "ptr:nil:list", "ptr:set:list")
 
 	nDyn := r.N(260, 3000)
-	perType := r.N(120, 600) // values per type, split over the arms
+	perType := r.N(120, 900) // values per type, split over the arms
 	nFresh := r.N(200, 2000) // fresh types for the concurrent first-use arm
 	workers := 16
 
